@@ -301,7 +301,7 @@ def check_step(st, *, canonical: bool):
         s, e = ed.core
         gap1 = bdata[pre_b:s]
         gap2 = bdata[e:post_b]
-        if gap1.strip() == b"" and gap2.strip() == b"":
+        if gap1.strip() == b"" and gap2.strip() == b"" and b"\n" not in gap1 and b"\n" not in gap2:
             if not (ra.startswith(gap1) and ra.endswith(gap2) and len(ra) >= len(gap1) + len(gap2)):
                 problems.append(("bytes", "layout around the replaced value changed: %r -> %r" % (rb, ra)))
             else:
